@@ -39,6 +39,8 @@ CheckObs(env, cfg, k, o) ==
      ELSE IF k.priv /\ o.prv # k.key THEN V("key-private-key", "32-byte scalar", Len(o.prv))
      ELSE IF ~k.priv /\ o.prverr # "not-private" THEN V("public-key-yields-private-key", "not-private", o.prverr)
      ELSE IF o.addr # CashString(cfg.nets[o.anet].cash, TypeP2PKH, h160) THEN V("key-address", Cut(CashString(cfg.nets[o.anet].cash, TypeP2PKH, h160)), Cut(o.addr))
+     ELSE IF "addrs" \in DOMAIN o /\ Len(o.addrs) = Len(cfg.nets) /\ \E j \in 1..Len(o.addrs) : o.addrs[j] # CashString(cfg.nets[j].cash, TypeP2PKH, h160)
+       THEN V("key-address", "the P2PKH address of the key on every network", [net |-> CHOOSE j \in 1..Len(o.addrs) : o.addrs[j] # CashString(cfg.nets[j].cash, TypeP2PKH, h160)])
      ELSE OK
 
 \* frame condition (C15): keys that are not the target keep value and derivation behaviour
